@@ -5,6 +5,7 @@ package main
 import (
 	"bufio"
 	"bytes"
+	"compress/gzip"
 	"crypto/sha256"
 	"fmt"
 	"io"
@@ -28,8 +29,9 @@ func init() {
 type rawBackend struct {
 	ln      net.Listener
 	mu      sync.Mutex
-	scripts map[string][]byte       // case -> response wire bytes
-	seen    map[string]*recordedReq // case -> request as received
+	scripts map[string][]byte        // case -> response wire bytes
+	pauses  map[string]time.Duration // case -> pause in the middle of the response (a slow backend)
+	seen    map[string]*recordedReq  // case -> request as received
 }
 
 type recordedReq struct {
@@ -40,7 +42,7 @@ type recordedReq struct {
 }
 
 func newRawBackend() *rawBackend {
-	b := &rawBackend{scripts: map[string][]byte{}, seen: map[string]*recordedReq{}}
+	b := &rawBackend{scripts: map[string][]byte{}, pauses: map[string]time.Duration{}, seen: map[string]*recordedReq{}}
 	var err error
 	b.ln, err = net.Listen("tcp", "127.0.0.1:0")
 	if err != nil {
@@ -73,9 +75,15 @@ func (b *rawBackend) serve(c net.Conn) {
 		b.mu.Lock()
 		b.seen[cs] = &recordedReq{method: req.Method, target: req.RequestURI, host: req.Host, hdr: req.Header.Clone(), body: body, bodyErr: berr}
 		wire, ok := b.scripts[cs]
+		pause := b.pauses[cs]
 		b.mu.Unlock()
 		if !ok {
 			wire = []byte("HTTP/1.1 200 OK\r\nContent-Length: 2\r\nConnection: close\r\n\r\nok")
+		}
+		if pause > 0 && len(wire) > 2 {
+			c.Write(wire[:len(wire)/2])
+			time.Sleep(pause)
+			wire = wire[len(wire)/2:]
 		}
 		c.Write(wire)
 		return
@@ -268,6 +276,19 @@ func suiteRespPath(e *vh.Env) {
 					s.undecl = append(s.undecl, [2]string{fmt.Sprintf("X-Undeclared-%d", k), "uv"})
 				}
 			}
+			gzipped := i%40 == 11
+			if gzipped {
+				// a backend that compresses (as it may when asked to, or always does); the client did not ask for it
+				var zb bytes.Buffer
+				zw := gzip.NewWriter(&zb)
+				zw.Write(bytes.Repeat([]byte("compressible payload "), 200+rng.Intn(200)))
+				zw.Close()
+				s.body = zb.Bytes()
+				s.hdr = append(s.hdr, [2]string{"Content-Encoding", "gzip"})
+				if s.method == "HEAD" || s.status == 204 || s.status == 304 {
+					s.method, s.status = "GET", 200
+				}
+			}
 			if i%40 == 7 {
 				// a field sent both as a header and, with another value, as a declared trailer
 				if s.chunks == nil {
@@ -281,6 +302,9 @@ func suiteRespPath(e *vh.Env) {
 			}
 			cs := fmt.Sprintf("resp-%d-%d", e.Seed, i)
 			be.mu.Lock()
+			if e.Thorough() && i == 13 {
+				be.pauses[cs] = 11500 * time.Millisecond // a response that takes its time (long poll, report generation)
+			}
 			be.scripts[cs] = s.wire()
 			be.mu.Unlock()
 			withSessions := i%4 == 3
@@ -290,7 +314,9 @@ func suiteRespPath(e *vh.Env) {
 			}
 			req, _ := http.NewRequest(s.method, base+"resp/"+cs, nil)
 			req.Header.Set("X-Case", cs)
-			req.Header.Set("Accept-Encoding", "identity")
+			if !gzipped {
+				req.Header.Set("Accept-Encoding", "identity")
+			}
 			cl := &http.Client{Transport: &http.Transport{DisableKeepAlives: true, DisableCompression: true}, Timeout: 60 * time.Second,
 				CheckRedirect: func(*http.Request, []*http.Request) error { return http.ErrUseLastResponse }}
 			resp, err := cl.Do(req)
